@@ -12,3 +12,49 @@ pub use binary::{
     serialize_with_manifest, try_serialize, try_serialize_with_manifest,
 };
 pub use disasm::{DisassemblerOptions, disassemble, disassemble_to_string};
+
+/// Verification hook: the token stream of the .aasm lexer, one string per token
+/// (`D:`/`L:`/`I:`/`S:` + code points joined by '.', `R:n`, `N:n`, `F`, `B:true`, `U`, punctuation,
+/// `NL`, `EOF`); `ERR` replaces the rest after the first lexical error.
+#[cfg(vbxq_aelys_lang_verif)]
+pub fn verif_tokens(source: &str) -> Vec<String> {
+    use lexer::{Lexer, Token};
+    let cps = |s: &str| {
+        s.chars()
+            .map(|c| (c as u32).to_string())
+            .collect::<Vec<_>>()
+            .join(".")
+    };
+    let mut lexer = Lexer::new(source);
+    let mut out = Vec::new();
+    loop {
+        match lexer.next_token() {
+            Err(_) => {
+                out.push("ERR".to_string());
+                return out;
+            }
+            Ok(Token::Eof) => {
+                out.push("EOF".to_string());
+                return out;
+            }
+            Ok(t) => out.push(match t {
+                Token::Directive(s) => format!("D:{}", cps(&s)),
+                Token::LabelRef(s) => format!("L:{}", cps(&s)),
+                Token::Ident(s) => format!("I:{}", cps(&s)),
+                Token::Register(n) => format!("R:{}", n),
+                Token::Int(n) => format!("N:{}", n),
+                Token::Float(_) => "F".to_string(),
+                Token::String(s) => format!("S:{}", cps(&s)),
+                Token::Bool(b) => format!("B:{}", b),
+                Token::Null => "U".to_string(),
+                Token::Comma => ",".to_string(),
+                Token::Colon => ":".to_string(),
+                Token::At => "@".to_string(),
+                Token::LBracket => "[".to_string(),
+                Token::RBracket => "]".to_string(),
+                Token::Newline => "NL".to_string(),
+                Token::Eof => "EOF".to_string(),
+            }),
+        }
+    }
+}
